@@ -152,6 +152,7 @@ def run_and_validate(c, binp, scripts, label):
     tr = os.path.join(c.work, "trace_%s.ndjson" % label)
     rs = os.path.join(c.work, "results_%s.json" % label)
     c.run([binp, "run", sf, tr, rs], timeout=2400)
+    c.log("driver ran %d scripts (%s)" % (len(scripts), label))
     res = json.load(open(rs))
     results = {r["sid"]: r for r in res["results"]}
     for r in res["results"]:
@@ -164,6 +165,7 @@ def run_and_validate(c, binp, scripts, label):
     if t.error or t.timed_out or not done or done[0]["lines"] != nlines:
         raise vlib.Inconclusive("trace validation did not run to the end (%s): %s" % (t.error, t.out[-1500:]))
     c.evaluations += done[0]["checks"]
+    c.log("TLC validated %d trace lines (%s)" % (nlines, label))
     viol = {}
     for v in t.printed:
         viol.setdefault(v["sid"], []).append(v)
@@ -272,10 +274,10 @@ def run(c):
         results, viol, ctxd, tr, hangs = run_and_validate(c, binp, sub, "c%d" % (off // chunk))
         report(c, sub, results, viol, ctxd, tr)
         nviol += len(viol)
-        c.traces_validated += len(results)
+        c.traces_validated += sum(1 for r in results.values() if not r.get("skipped"))
         for s in sub:
             r = results.get(s["sid"])
-            if r is None:
+            if r is None or r.get("skipped"):
                 stopped = True
                 continue
             if r["parts"] >= 2:
@@ -288,10 +290,9 @@ def run(c):
             c.sample(dict(kind="script with its recorded trace (first lines)", script=sub[len(sub) // 3],
                           trace=open(tr).read().splitlines()[:8]))
         if stopped:
-            c.log("the driver stopped after %d scripts that did not terminate; the remaining scripts were not run" % hangs)
+            c.log("%d scripts did not terminate; further scripts of their classes (kind, signal, sizer) were skipped" % hangs)
             if not c.violations:
-                raise vlib.Inconclusive("driver stopped early without a reported violation")
-            break
+                raise vlib.Inconclusive("scripts were skipped without a reported violation")
     if drift > 3:
         c.model_drift("%d split scripts in total returned parts other than the specified consecutive chunks (monitor satisfied)" % drift)
     c.extra["scripts"] = dict(total=len(scripts), rejected_by_monitor=nviol)
